@@ -48,6 +48,10 @@ func (p *Prog) effectiveKey(key string) string { return key }
 // effectFree: calls that the engine treats as not touching modelled memory although they have
 // no contract (diagnostics, statistics, formatting, locks). Listed in the evidence assumptions.
 func (p *Prog) effectFree(key string) bool {
+	// diagnostic interfaces (logging) never touch modelled memory
+	if strings.Contains(key, "Diagnostic).") || strings.Contains(key, "diagnostic).") {
+		return true
+	}
 	for _, pat := range p.effFree {
 		if strings.HasSuffix(pat, "*") {
 			if strings.HasPrefix(key, pat[:len(pat)-1]) {
